@@ -56,7 +56,7 @@ def run(rep, tier):
     # ---- B. tables and bit vectors, every width
     sizes = [0, 1, 2, 7, 63, 64, 65, 100, 127, 128, 129, 200, 255, 256, 257, 300, 511, 513, 600]
     if quick:
-        shapes = [(rng.choice(sizes), rng.choice(sizes)) for _ in range(60)] + [(s, s) for s in [1, 64, 65, 129, 256, 257]]
+        shapes = [(rng.choice(sizes), rng.choice(sizes)) for _ in range(60)] + [(s, s) for s in [1, 64, 65, 66, 100, 129, 130, 193, 200, 256, 257]]
     else:
         shapes = [(a, b) for a in sizes for b in sizes] + [(s, s) for s in range(0, 600, 37)]
     for (r, c) in shapes:
